@@ -7,6 +7,7 @@ const (
 
 // H_C12: services and routes can change while requests are being served.
 // op: 0 Add(ws), 1 Remove(ws), 2 Route on a dynamic service, 3 RemoveRoute; router: 0 Curly, 1 JSR311; entry: 0 Dispatch, 1 ServeHTTP
+// router >= 10: thorough variant with a third thread (a second change of another kind)
 // target: 0 the request goes to the service being changed, 1 to another one, 2 OPTIONS request through the OPTIONS filter
 func H_C12(op, router, entry, target int) {
 	type world struct {
@@ -16,7 +17,7 @@ func H_C12(op, router, entry, target int) {
 	}
 	build := func() *world {
 		w := &world{c: NewContainer()}
-		w.c.Router(vRouter(router))
+		w.c.Router(vRouter(router % 10))
 		mk := func(root string) *WebService {
 			ws := new(WebService)
 			ws.Path(root)
@@ -65,6 +66,17 @@ func H_C12(op, router, entry, target int) {
 		}
 	})
 	verifSpawn(func() { mutate(w, "/x") })
+	if router >= 10 {
+		// thorough: a third thread performing a second change of another kind
+		verifSpawn(func() {
+			switch op {
+			case 0, 1:
+				w.b.Route(w.b.GET("/z").To(func(req *Request, resp *Response) {}))
+			default:
+				w.c.Add(w.extra)
+			}
+		})
+	}
 	verifRunThreads(vMsgRace12, vMsgStuck12)
 	verifCover("ran")
 	// sequential complement on a second, identical world (natively the threads above really changed the first one):
